@@ -570,7 +570,7 @@ class ScriptedServer:
                 the package's own server); a longer body is answered 200
                 and not processed, as the real servers do
       ws:       'ok' | 'refuse'
-      probe:    'ok' | 'wrong' | 'silent' | 'close'
+      probe:    'ok' | 'wrong' | 'silent' | 'close' | 'upgrade-write-fails'
       ws_open:  'ok' | 'garbage' | 'nonopen' | 'close'  (websocket-only open)
     The driver pushes packets with push()/ws_push() and may drop / close.
     """
@@ -775,6 +775,11 @@ class ScriptedT(ScriptedServer):
                     conn.push('3nope')
                 elif p == 'close':
                     conn.server_close()
+                elif p == 'upgrade-write-fails':
+                    # the probe is answered, then the socket dies: the
+                    # client's next write (the UPGRADE frame) raises
+                    conn.push('3probe')
+                    conn.send_fails = True
             elif frame == '5':
                 conn.upgraded = True
                 # release the pending poll, as the real server does
